@@ -22,21 +22,28 @@ package gff
 //@   assigns  *f, *err
 
 //@ func (*Reader).Read
-//@   property C03
+//@   property C03 C04
 //@   requires r != nil && r.r != nil
 //@   ensures [value-or-error] f != nil || err != nil
-//@   loop 1 invariant r != nil && r.r != nil
+//@   ensures [no-data-loss]   lastErr(r.r) == io.EOF && lastLen(r.r) > 0 ==> splitCount(0) > old(splitCount(0))
+//@   ensures [monotone]       splitCount(0) >= old(splitCount(0))
+//@   loop 1 invariant r != nil && r.r != nil && splitCount(0) == old(splitCount(0))
 
 //@ func (*Reader).commentMetaline
-//@   property C03
+//@   property C03 C04
 //@   throws
 //@   requires r != nil && r.r != nil
 //@   ensures [value-or-error] f != nil || err != nil
+//@   ensures [parsed] splitCount(0) > old(splitCount(0))
+//@   exsures [parsed-on-error] splitCount(0) > old(splitCount(0))
 
 //@ func (*Reader).metaSeq
-//@   property C03
+//@   property C03 C04
 //@   requires r != nil && r.r != nil
 //@   ensures [value-or-error] result0 != nil || result1 != nil
+//@   ensures [no-data-loss]   lastErr(r.r) == io.EOF && lastLen(r.r) > 0 ==> result0 != nil || (result1 != nil && result1 != io.EOF)
+//@   ensures [monotone]       splitCount(0) >= old(splitCount(0))
+//@   loop 1 invariant splitCount(0) >= old(splitCount(0))
 //@   loop 1 invariant r != nil && r.r != nil
 
 //@ func splitAnnot
